@@ -107,12 +107,20 @@ func runC08(c *run.Ctx) {
 	}
 	// binding by the @go directive and by name only (no RegisterType), on cold roots, suffix-related Go type names,
 	// heterogeneous lists whose first element varies, one or several documents per root
-	m := c.N(1200, 20000)
+	petsRequests(c, "c08", c.N(1200, 20000))
+	c08Staged(c)
+	c08Subscription(c)
+}
+
+// petsRequests: binding by the @go directive and by name only (no RegisterType) on cold roots of named Go struct types,
+// heterogeneous lists whose first element varies, one or several generated documents per root. Shared with C01 (the
+// response shape is the same question); pfx names the violation kinds.
+func petsRequests(c *run.Ctx, pfx string, m int) {
 	for i := 0; i < m && !c.TooMany(); i++ {
 		r := c.Rand(1000000 + i)
 		root, ms, g, err := zoo.NewPetsRoot(i)
 		if err != nil {
-			c.Violation("c08-schema-rejected", map[string]interface{}{"error": err.Error()})
+			c.Violation(pfx+"-schema-rejected", map[string]interface{}{"error": err.Error()})
 			return
 		}
 		for k := 0; k < 1+i%3; k++ {
@@ -137,14 +145,12 @@ func runC08(c *run.Ctx) {
 			c.Eval("pets|"+text+fmt.Sprint(i%4, k), true)
 			c.Count("static_binding_documents", 1)
 			if diff := Compare(exp, out, CompareOpts{StripFragSeg: true}); diff != "" {
-				c.Violation("c08-static-binding", map[string]interface{}{"sdl": ms.SDL(model.SDLOpts{}), "data_variant": i % 4, "document_index_on_this_root": k, "document": text,
+				c.Violation(pfx+"-static-binding", map[string]interface{}{"sdl": ms.SDL(model.SDLOpts{}), "data_variant": i % 4, "document_index_on_this_root": k, "document": text,
 					"diff": diff, "expected": exp.Describe(), "observed": out.Describe()})
 				break
 			}
 		}
 	}
-	c08Staged(c)
-	c08Subscription(c)
 }
 
 // ---------------------------------------------------------------- events of abstract-typed subscription fields
